@@ -158,9 +158,15 @@ def run_meat(ctx, c):
     judge_meat(ctx, r1, r2, out, c)
 
 
-def judge_meat(ctx, r1, r2, out, c):
+def judge_meat(ctx, r1, r2, out, c, recomputed=False):
     scale = max(1.0, float(r2.sum()), float(r1.sum()))
-    if r1.sum() > r2.sum():
+    if recomputed and abs(r1.sum() - r2.sum()) <= 1e-9 * scale:
+        # r2 was recomputed by the reference, not the very array the model compared: with totals equal to rounding the model's strict
+        # comparison may fall either way; only the statements about a returned series can be judged
+        ctx.event("totals_equal_to_rounding")
+        if out is None:
+            return
+    elif r1.sum() > r2.sum():
         ctx.event("feed_round_meat_total_lower")
         if out is not None:
             ctx.fail("meat-re-timing-does-not-signal-lower-total", "total %.9g < no-feed total %.9g but a series was returned" % (r2.sum(), r1.sum()), c)
@@ -244,7 +250,7 @@ def run_real(ctx, iso3, options, title):
         herd2 = [h for h in cap.herds if h["round"] == "second"][0]["obj"]
         from checks.c05 import meat_from_herd
         raw2 = meat_from_herd(herd2, cp)
-        judge_meat(ctx, r1, raw2, new2, case)
+        judge_meat(ctx, r1, raw2, new2, case, recomputed=True)
         ctx.event("real_feed_round")
         ctx.nontrivial_case(dict(iso3=iso3, options=options))
     elif "second" in cap.rounds:
